@@ -846,14 +846,27 @@ def laws(W, rec):
         law("C08/combined-items-multi", sorted(c.items(multi=True)) == sorted(allp), f"{list(c.items(multi=True))!r}", case)
         law("C08/combined-lists", dict(c.lists()) == {k: gl(k) for k in keys}, f"{dict(c.lists())!r}", case)
         law("C08/combined-to_dict", c.to_dict() == {k: gl(k)[0] for k in keys} and c.to_dict(flat=False) == {k: gl(k) for k in keys}, f"{c.to_dict()!r}", case)
+        # equality and hashing follow the content (the concatenation of the parts), like every other variant
+        twin = DS.CombinedMultiDict([DS.MultiDict(p1), DS.MultiDict(p2)])
+        law("C08/eq-hash:CombinedMultiDict", c == twin and not (c != twin) and hash(c) == hash(twin), f"equal views: == {c == twin}, != {c != twin}, hashes equal {hash(c) == hash(twin)}", case)
+        for q1, q2 in ((p2, p1), ([], []), (p1, []), (p1 + [("zz", "9")], p2)):
+            other = DS.CombinedMultiDict([DS.MultiDict(q1), DS.MultiDict(q2)])
+            same_content = {k: gl(k) for k in keys} == {k: [v for kk, v in q1 + q2 if kk == k] for k in {k for k, _ in q1 + q2}}
+            law("C08/eq-hash:CombinedMultiDict", (c == other) == same_content and (c != other) == (not same_content) and (not same_content or hash(c) == hash(other)),
+                f"views over {case!r} and {(q1, q2)!r}: == is {c == other}, content equal is {same_content}", case)
+        if allp:
+            law("C08/eq-hash:CombinedMultiDict", c != {} and not (c == {}) and not ({} == c), "a non-empty view compares equal to {}", case)
         mc = c.copy()
         law("C08/combined-copy", type(mc) is DS.MultiDict and sorted(mc.items(multi=True)) == sorted(allp), f"{type(mc).__name__}", case)
+        hash(c)
         a.add("n", "1")
         law("C08/combined-live", "n" in c and c.getlist("n") == ["1"], "combined view does not see a later add on a part", case)
+        later = DS.CombinedMultiDict([DS.MultiDict(list(a.items(multi=True))), DS.MultiDict(p2)])
+        law("C08/eq-hash:CombinedMultiDict", c == later and hash(c) == hash(later), "after a part changed, the view equals a view over equal parts but hashes differently (stale hash)", case)
         law("C08/combined-copy-independent", "n" not in mc, "", case)
         for proto in range(pickle.HIGHEST_PROTOCOL + 1):
             p = pickle.loads(pickle.dumps(c, proto))
-            law("C08/combined-pickle", type(p) is DS.CombinedMultiDict and sorted(p.items(multi=True)) == sorted(c.items(multi=True)), f"proto {proto}", case)
+            law("C08/combined-pickle", type(p) is DS.CombinedMultiDict and sorted(p.items(multi=True)) == sorted(c.items(multi=True)) and p == c, f"proto {proto}", case)
         try:
             dc = copy.deepcopy(c)
             law("C08/combined-deepcopy", type(dc) is DS.CombinedMultiDict and sorted(dc.items(multi=True)) == sorted(c.items(multi=True)), "deepcopy differs", case)
